@@ -129,7 +129,7 @@ Proof. vm_compute. reflexivity. Qed.
 Example C42_prefix_refuted :
   (exists pk, disconnect_decode_prefix (fresh_packet 5 (mkfh 1 DISCONNECT 0 false false)) [4] = Ok pk /\
               pk_reason_code pk = 0) /\
-  auth_decode_prefix (fresh_packet 5 (mkfh 0 AUTH 0 false false)) [] = Err EReasonCode.
+  auth_decode_prefix (fresh_packet 5 (mkfh 0 AUTH 0 false false)) [] = Err EOffsetByteOutOfRange.
 Proof. split; [exact prefix_disconnect_loses_reason | exact (proj1 prefix_auth_rejects_short)]. Qed.
 
 Print Assumptions C42_all.
